@@ -31,10 +31,20 @@ type Case struct {
 	// wrap-pair: Wrap is first called on (text + Digits, width) and then judged on (text, Digits+width read as one
 	// number): the two calls spell the same characters when text and width are written one after the other
 	Digits string `json:"digits,omitempty"`
+	// wrap-ctlspace: every CtlEvery-th blank of the text is replaced by the whitespace character Ctl, which is also a
+	// control character (CR, VT, FF, NEL): still whitespace, so still a place where words end
+	Ctl      int `json:"ctl,omitempty"`
+	CtlEvery int `json:"ctl_every,omitempty"`
 }
+
+var ctlSpace = false
+
 
 func parse(what, s string) (*vorc.Parsed, error) {
 	p, err := vorc.Parse(s)
+	if ctlSpace {
+		p, err = vorc.ParseCtlSpace(s)
+	}
 	if err != nil {
 		return nil, fmt.Errorf("%s is not well-formed terminal text: %v (%q)", what, err, clip(s))
 	}
@@ -436,6 +446,23 @@ func check(c Case) vrep.Result {
 		c2.Width = second
 		err = checkWrap(c2, in, &classes)
 		classes = append(classes, "wrap:after-a-call-spelled-alike")
+	case "wrap-ctlspace":
+		n := 0
+		in = strings.Map(func(r rune) rune {
+			if r == ' ' {
+				n++
+				if n%c.CtlEvery == 0 {
+					return rune(c.Ctl)
+				}
+			}
+			return r
+		}, in)
+		ctlSpace = true
+		err = checkWrap(c, in, &classes)
+		ctlSpace = false
+		if n >= c.CtlEvery {
+			classes = append(classes, "wrap:control-whitespace")
+		}
 	case "wrap":
 		err = checkWrap(c, in, &classes)
 	case "dumbwrap":
@@ -478,6 +505,11 @@ func gen(t *rapid.T) Case {
 		// the text must not be styled at its end (the digits are appended as plain characters): a plain tail
 		c.Tree = &vgen.SNode{Op: "cat", Kids: []*vgen.SNode{c.Tree, {Op: "text", Text: rapid.SampledFrom([]string{"chapter ", "released in 20", "a", "x y "}).Draw(t, "pairtail")}}}
 		return c
+	}
+	if c.Op == "wrap" && rapid.SampledFrom([]int{0, 0, 0, 0, 0, 0, 1}).Draw(t, "ctlspace") == 1 {
+		c.Op = "wrap-ctlspace"
+		c.Ctl = int(rapid.SampledFrom([]rune{'\r', '\r', '\v', '\f', 0x85}).Draw(t, "ctl"))
+		c.CtlEvery = rapid.IntRange(1, 3).Draw(t, "ctlevery")
 	}
 	if rapid.IntRange(0, 9).Draw(t, "degenerate") == 0 {
 		c.Width = rapid.IntRange(-3, 0).Draw(t, "width<=0")
